@@ -453,7 +453,7 @@ func GenHostile(t *rapid.T, o Options) ([]byte, []string, *Layout) {
 	truncate := -1
 	for i := 0; i < n; i++ {
 		kinds := []string{"sev-offset", "sev-length", "sev-count", "sev-sig", "sev-section-field", "tdx-offset", "tdx-length", "tdx-count", "tdx-sig-version", "tdx-section-field",
-			"footer-size", "entry-size", "duplicate-entry", "drop-reset", "truncate", "sev-count+length-consistent", "tdx-count+length-consistent", "tdx-private-memsize", "tdx-fv-sum-wrap", "sev-sections-sum-wrap"}
+			"footer-size", "entry-size", "duplicate-entry", "drop-reset", "truncate", "sev-count+length-consistent", "tdx-count+length-consistent", "tdx-private-memsize", "tdx-fv-sum-wrap", "sev-sections-sum-wrap", "tdx-fv-field", "tdx-fv-field"}
 		k := rapid.SampledFrom(kinds).Draw(t, "hostileKind")
 		muts = append(muts, k)
 		switch k {
@@ -497,6 +497,30 @@ func GenHostile(t *rapid.T, o Options) ([]byte, []string, *Layout) {
 				l.Ov.TdxSig = h32(t, "v")
 			} else {
 				l.Ov.TdxVersion = h32(t, "v")
+			}
+		case "tdx-fv-field":
+			// a hostile data offset / size on a firmware-volume section (the fields that index the image)
+			var fvs []int
+			for j := range l.Tdx {
+				if l.Tdx[j].Type == TdxBFV || l.Tdx[j].Type == TdxCFV {
+					fvs = append(fvs, j)
+				}
+			}
+			if len(fvs) > 0 {
+				j := fvs[rapid.IntRange(0, len(fvs)-1).Draw(t, "fv")]
+				switch rapid.IntRange(0, 2).Draw(t, "fvField") {
+				case 0:
+					l.Tdx[j].DataOffset = *h32(t, "v")
+				case 1:
+					v := *h32(t, "v")
+					l.Tdx[j].DataSize, l.Tdx[j].MemorySize = v, uint64(v)
+				default:
+					// offset and size that add up to the image size modulo 2^32
+					off := *h32(t, "v")
+					l.Tdx[j].DataOffset = off
+					l.Tdx[j].DataSize = uint32(l.Spec.Size) - off
+					l.Tdx[j].MemorySize = uint64(l.Tdx[j].DataSize)
+				}
 			}
 		case "tdx-fv-sum-wrap":
 			// two extra firmware-volume sections whose sizes add 2^32 to the volume total, so that a
